@@ -10,6 +10,7 @@ import (
 	"net"
 	"os"
 	"strings"
+	"sync/atomic"
 	"time"
 
 	"nhooyr.io/websocket"
@@ -240,7 +241,8 @@ func runC18Case(cc c18Case, modelLine *string, modelWant *string) (string, strin
 		// set before, between and during calls. Ground truth by construction: expired flags + closed.
 		exp := map[byte]bool{'r': false, 'w': false}
 		closed := false
-		pendingR := 0
+		pendingR := 0 // bytes sent by the peer and not yet returned by a Read
+		var lastRead int32
 		var evs, results []string
 		past := func() time.Time { return time.Now().Add(-time.Duration(1+rng.Intn(5000)) * time.Millisecond) }
 		setDL := func(sd byte, t time.Time) {
@@ -275,10 +277,16 @@ func runC18Case(cc c18Case, modelLine *string, modelWant *string) (string, strin
 			done := make(chan error, 1)
 			if sd == 'r' {
 				if !blocked && pendingR == 0 {
-					peer.writeFrame(RawFrame{Fin: true, Op: cc.MsgType, Payload: []byte("m")})
-					pendingR++
+					// 12-byte messages read with an 8-byte buffer: between two reads a message is often partly
+					// consumed, so deadlines are also set (and expire) in the middle of a message
+					peer.writeFrame(RawFrame{Fin: true, Op: cc.MsgType, Payload: []byte("0123456789ab")})
+					pendingR += 12
 				}
-				go func() { _, err := nc.Read(make([]byte, 8)); done <- err }()
+				go func() {
+					n, err := nc.Read(make([]byte, 8))
+					atomic.StoreInt32(&lastRead, int32(n))
+					done <- err
+				}()
 			} else {
 				n := 1
 				if blocked {
@@ -319,7 +327,9 @@ func runC18Case(cc c18Case, modelLine *string, modelWant *string) (string, strin
 				case err := <-done:
 					got = class(err)
 					if sd == 'r' && err == nil {
-						pendingR--
+						pendingR -= int(atomic.LoadInt32(&lastRead))
+					} else if sd == 'r' && atomic.LoadInt32(&lastRead) != 0 {
+						return "read-returns-data-with-error", fmt.Sprintf("%s: after %v a read returned %d bytes together with %v", desc, evs, atomic.LoadInt32(&lastRead), err)
 					}
 				case <-time.After(3 * time.Second):
 					return "deadline-program-call-hangs", fmt.Sprintf("%s: event %s after %v", desc, ev, evs)
